@@ -28,6 +28,32 @@ def run(ctx):
             continue
         protocheck.roundtrip_stream(ctx, g, batch, ir, auxinfo, bs, "RT%d" % i)
         ctx.case(repr(bs), len(bs) > 60)
+        if i % 3 == 0:
+            # the SAME in-memory IR saved a second time after in-place edits (values reached through .data, attributes of nodes):
+            # nothing remembered from the first save may survive into the second file
+            edited = 0
+            for cont, key, t, v in auxinfo:
+                if t[0] == "sequence" and isinstance(v, list) and cont.aux_data[key].data is v:
+                    if v and ctx.rng.random() < 0.7:
+                        v.append(v[0])
+                    elif v:
+                        v.pop()
+                    edited += 1
+            for y in ir.symbols:
+                y.name = y.name + "'"
+                edited += 1
+                break
+            for b in ir.byte_blocks:
+                if b.offset < (1 << 63):
+                    b.offset += 1
+                    edited += 1
+                    break
+            if edited:
+                bs2 = protocheck.writer_stream(ctx, g, batch, ir, auxinfo, "RT%d:second-save" % i)
+                if bs2 is not None:
+                    protocheck.roundtrip_stream(ctx, g, batch, ir, auxinfo, bs2, "RT%d:second-save" % i)
+                    ctx.count("second_saves_after_in_place_edits")
+                    ctx.case(repr(bs2), True)
     # the file-name entry points (IR.save_protobuf / IR.load_protobuf) write and read the same bytes as the stream ones
     import os
     import tempfile
